@@ -55,6 +55,24 @@ def make_env(db_dir, reorg_limit, extra=None):
     return Env()
 
 
+SCALE_STORAGE = True      # suites that run real code which opens the DB by itself (the compaction script) switch it off
+
+
+def scale_storage(db, dirpath, counter):
+    """Small split-file sizes for this database directory: decided once per directory (by the parity of a
+    counter) and remembered in a marker file, so that every later open of the directory - by a World, a
+    RealIndex or a judge - uses the sizes the files were written with."""
+    marker = os.path.join(dirpath, 'verif_small_files')
+    fresh = not os.path.exists(os.path.join(dirpath, 'meta', 'headers00'))
+    if SCALE_STORAGE and fresh and not os.path.exists(marker) and counter % 2 == 1:
+        with open(marker, 'w') as f:
+            f.write('1')
+    if os.path.exists(marker):
+        db.headers_file.file_size = 80 * 3
+        db.tx_counts_file.file_size = 8 * 5
+        db.hashes_file.file_size = 32 * 7
+
+
 class RealIndex:
     def __init__(self, act, reorg_limit, base='/dev/shm'):
         import electrumx.server.db as dbmod
@@ -92,8 +110,14 @@ class RealIndex:
         OnDiskBlock = self.bpmod.OnDiskBlock
         OnDiskBlock.blocks = {}
         OnDiskBlock.tasks = {}
+        # scaled-down storage parameters on every other case: the split meta files hold 3 headers / 5 tx
+        # counts / 7 tx hashes each (so flushes start mid-file and cross file boundaries as they do on a
+        # long chain), and block files are read in chunks of a few hundred bytes (so blocks span chunks
+        # as 25 MB+ blocks do); the parameters are attributes of the real objects, nothing is replaced
+        self.bpmod.OnDiskBlock.chunk_size = [25_000_000, 131, 25_000_000, 257, 25_000_000, 1031][_case_counter[0] % 6]
         try:
             self.db = self.dbmod.DB(self.env)
+            scale_storage(self.db, self.dir, _case_counter[0])
             self.bp = self.bpmod.BlockProcessor(self.env, self.db, self.daemon, None)
             state = run(self.db.open_for_sync())
         except AssertionError:
